@@ -1,6 +1,7 @@
 import NunavutVerif.Lemmas.Tpl
 import NunavutVerif.Lemmas.FilePP
 import NunavutVerif.Gen.TplFlows
+import NunavutVerif.Gen.TplCallables
 /-!
 # C07 — reproducible output: a pure function of inputs, options and tool version
 
@@ -58,6 +59,18 @@ theorem C07_py_clean_partial :
     TplFlowsPy.lang.cleanFor [.time, .platform, .hashOrder, .random] = true ∧
     TplFlowsPy.lang.rootsCleanFor Src.c07 .namespace = true ∧
     TplFlowsPy.lang.rootsCleanFor Src.c07 .support = true := by decide +kernel
+
+/-- py, tightened: the ONLY expressions of the Python templates that read anything ambient with auditing off are the
+applications of the `pickle` filter (the `_MODEL_` literal: `ServiceType.j2` and the `data_schema` macro of `base.j2`;
+ids regenerated in `TplFlowsPy.pickleLeaves`).  With those leaves replaced by ANY ambient-independent function of the
+same arguments the whole table — per-type, namespace and support files — is clean for every class of C07, i.e. by T1
+every other byte of every generated Python file is reproducible. -/
+theorem C07_py_clean_except_pickled_model_partial :
+    (TplFlowsPy.lang.scrub TplFlowsPy.pickleLeaves).cleanFor Src.c07 = true := by decide +kernel
+
+/-- The exception is not empty, and c, cpp and html have none. -/
+example : TplFlowsPy.pickleLeaves ≠ [] ∧ TplFlowsC.pickleLeaves = [] ∧ TplFlowsCpp.pickleLeaves = [] ∧
+    TplFlowsHtml.pickleLeaves = [] := by decide
 
 /-- The excluded cell really is dirty in the table (the model describes the code as it is). -/
 example : TplFlowsPy.lang.rootsCleanFor [.absPath] .type = false := by decide +kernel
@@ -130,6 +143,21 @@ example : sortStrs ["b.h".toList, "a.h".toList, "c.h".toList] = sortStrs ["c.h".
   sortStrs_perm_invariant _ _ (by decide)
 
 /-! ### Outside the templates: the glue code and the external post-processing program -/
+
+/-- Every filter, test and global registered in the real template environments of c, cpp, py and html — whether a
+built-in template uses it or not, `ln.<language>.*` aliases and the filters contributed by `@template_language_filter`
+& co. included — is classified (hand table for Jinja's own and for opaque values, scan of the Python body for nunavut
+code), and none reads the clock, an absolute path, the platform, a hash order or a random source, except the expected
+names of `Tpl.expectedAmbient` with no more than their expected classes.  A newly registered or newly ambient name
+breaks this theorem and is listed in the replay. -/
+theorem C07_registered_callables_as_expected :
+    TplCallables.unclassified = [] ∧
+    TplCallables.all.all (fun L => L.2.all (Callable.asExpected Src.c07)) = true := by decide +kernel
+
+/-- Non-vacuity: the table is not empty and the expected names are really there and really ambient. -/
+example : TplCallables.all.all (fun L => L.2.length > 200) = true ∧
+    TplCallables.c.any (fun c => c.short = "now_utc" && c.effective.contains .time) = true ∧
+    TplCallables.py.any (fun c => c.short = "pickle" && c.effective.contains .absPath) = true := by decide +kernel
 
 /-- Nothing but the command line, the documented environment variables (`DSDL_INCLUDE_PATH`, `CYPHAL_PATH`) and the
 package itself is looked at by the command line, the runners, the language configuration, the generators and the
